@@ -7,8 +7,13 @@ pointer hop limit).  The transcription of the unpatched parser is in `Orig.lean`
 Part 1: reply parsing (`FetchDomain`, the body of `onUdpRecv`).
 Part 2: pending lookups (`requests_`), timeout ring, server-failure counting, callbacks.
 
+Callbacks are SCRIPTS of API calls carried in the state (`Req.script`): when a lookup's callback
+fires (reply, error status, all servers failed, timeout) the script is executed from inside the
+callback, i.e. before `onUdpRecv`/`onRequestTimeout` erase the lookup and — for timeouts — while
+`TimeoutMonitor::onTimerTick` is still walking the slot it swapped out.
+
 Ghost fields (never printed, never branch on): `P.acc`, `P.jumps`, `ARec.off`, `Req.born`,
-`St.now`.
+`St.now`, `St.called`, `St.cancelled`, `St.refused`, `St.idReuse`, `Event.age`.
 -/
 import TboxModel.C15.Deserializer
 namespace Tbox.C15
@@ -119,17 +124,27 @@ structure Result where
   c : List CRec := []
 deriving Repr, DecidableEq
 
-/-- `DnsRequest::Request`; the callback is identified by the serial number of its lookup -/
+/-- one API call made from inside a callback -/
+inductive Act where
+  | lookup (sid : Nat)     -- request(domain, callback = script number `sid`)
+  | cancel (id : Nat)      -- cancel(id)
+  | cancelSelf             -- cancel(the id of the lookup whose callback is running)
+deriving Repr, DecidableEq
+
+/-- `DnsRequest::Request`; the callback is the script, identified by the lookup's serial number -/
 structure Req where
   serial : Nat
+  script : List Act := []
   responseCount : Nat := 0
   born : Nat := 0        -- ghost: value of `St.now` when the lookup was issued
 deriving Repr, DecidableEq
 
-/-- a callback invocation -/
+/-- a callback invocation, with the return values of the API calls its script made -/
 structure Event where
   serial : Nat
   result : Result
+  acts : List (Act × Nat) := []
+  age : Nat := 0         -- ghost: ticks since the lookup was issued
 deriving Repr, DecidableEq
 
 structure St where
@@ -143,7 +158,12 @@ structure St where
   r4 : List Nat := []
   valueNumber : Nat := 0               -- value_number_ (timer enabled iff > 0)
   nextSerial : Nat := 0                -- lookups issued so far (harness-side callback index)
+  scripts : List (List Act) := []      -- harness-side table of callback scripts
   now : Nat := 0                       -- ghost: ticks so far
+  called : List Nat := []              -- ghost: serials whose callback ran, in order
+  cancelled : List Nat := []           -- ghost: serials cancelled while outstanding
+  refused : List Nat := []             -- ghost: serials of refused lookups (no server configured)
+  idReuse : Bool := false              -- ghost: some lookup was handed an id still outstanding / still in the ring
 deriving Repr, DecidableEq
 
 def find (reqs : List (Nat × Req)) (id : Nat) : Option Req :=
@@ -152,27 +172,51 @@ def find (reqs : List (Nat × Req)) (id : Nat) : Option Req :=
 def erase (reqs : List (Nat × Req)) (id : Nat) : List (Nat × Req) :=
   reqs.filter (fun e => e.1 != id)
 
-/-- `if (req->cb) req->cb(result); deleteRequest(req_id);` -/
-def finish (st : St) (id : Nat) (r : Req) (res : Result) : St × List Event :=
-  ({ st with reqs := erase st.reqs id }, [⟨r.serial, res⟩])
+def inRing (st : St) (id : Nat) : Bool :=
+  st.r0.contains id || st.r1.contains id || st.r2.contains id || st.r3.contains id || st.r4.contains id
 
-/-- `request()`: returns the id (0 = refused, no server configured) -/
-def lookup (st : St) : St × Nat :=
-  if st.servers = 0 then ({ st with nextSerial := st.nextSerial + 1 }, 0)
+/-- `request()` with callback script `sid`: returns the id (0 = refused, no server configured) -/
+def lookup (st : St) (sid : Nat) : St × Nat :=
+  if st.servers = 0 then
+    ({ st with nextSerial := st.nextSerial + 1, refused := st.refused ++ [st.nextSerial] }, 0)
   else
     let id := (st.alloc + 1) % 65536
     -- requests_[req_id] = req; timeout_monitor_.add(req_id);
     ({ st with alloc := id,
-               reqs := (id, { serial := st.nextSerial, born := st.now }) :: erase st.reqs id,
+               reqs := (id, { serial := st.nextSerial, script := st.scripts.getD sid [], born := st.now })
+                        :: erase st.reqs id,
                r0 := st.r0 ++ [id],
                valueNumber := st.valueNumber + 1,
-               nextSerial := st.nextSerial + 1 }, id)
+               nextSerial := st.nextSerial + 1,
+               idReuse := st.idReuse || (find st.reqs id).isSome || inRing st id }, id)
 
 /-- `cancel()` -/
 def cancel (st : St) (id : Nat) : St × Bool :=
   match find st.reqs id with
   | none => (st, false)
-  | some _ => ({ st with reqs := erase st.reqs id }, true)
+  | some r => ({ st with reqs := erase st.reqs id, cancelled := st.cancelled ++ [r.serial] }, true)
+
+/-- the body of a callback: the API calls of its script, in order (none of them can run another
+callback synchronously) -/
+def runScript (self : Nat) : St → List Act → St × List (Act × Nat)
+  | st, [] => (st, [])
+  | st, a :: as =>
+    let (st1, ret) : St × Nat :=
+      match a with
+      | .lookup sid => lookup st sid
+      | .cancel id => let (s, b) := cancel st id; (s, if b then 1 else 0)
+      | .cancelSelf => let (s, b) := cancel st self; (s, if b then 1 else 0)
+    let (st2, outs) := runScript self st1 as
+    (st2, (a, ret) :: outs)
+
+/-- `if (req->cb) req->cb(result); deleteRequest(req_id);`
+(ghost: `idReuse` is also raised when the callback's own id was handed out again while the
+callback ran — `deleteRequest(req_id)` then erases that new lookup) -/
+def finish (st : St) (id : Nat) (r : Req) (res : Result) : St × List Event :=
+  let (st1, outs) := runScript id st r.script
+  ({ st1 with reqs := erase st1.reqs id, called := st1.called ++ [r.serial],
+              idReuse := st1.idReuse || st1.reqs.any (fun e => e.1 == id && e.2.serial != r.serial) },
+   [⟨r.serial, res, outs, st.now - r.born⟩])
 
 /-- `onUdpRecv()` given what the parser made of the datagram -/
 def applyReply (st : St) : Reply → St × List Event
@@ -209,11 +253,12 @@ def onTimeout (acc : St × List Event) (id : Nat) : St × List Event :=
     let (st', e) := finish acc.1 id r { status := .timeout }
     (st', acc.2 ++ e)
 
-/-- one second passes: the monitor's timer fires iff it is enabled -/
+/-- one second passes: the monitor's timer fires iff it is enabled.
+`curr_item_ = curr_item_->next; swap(tobe_handle, curr_item_->items); value_number_ -= n;` and only
+then the callbacks: what they `add()` lands in the (now empty) current slot `r0`. -/
 def tick (st : St) : St × List Event :=
   if st.valueNumber = 0 then (st, [])
   else
-    -- curr_item_ = curr_item_->next; swap(tobe_handle, curr_item_->items); value_number_ -= n
     let items := st.r1
     let st1 := { st with r0 := [], r1 := st.r2, r2 := st.r3, r3 := st.r4, r4 := st.r0,
                          valueNumber := st.valueNumber - items.length, now := st.now + 1 }
@@ -221,7 +266,8 @@ def tick (st : St) : St × List Event :=
 
 inductive Op where
   | servers (n : Nat)
-  | lookup
+  | defScript (acts : List Act)
+  | lookup (sid : Nat)
   | cancel (id : Nat)
   | running (id : Nat)
   | recv (d : List Byte)
@@ -236,7 +282,8 @@ deriving Repr, DecidableEq
 
 def step (st : St) : Op → St × Out
   | .servers n => ({ st with servers := n }, {})
-  | .lookup => let (s, id) := lookup st; (s, { ret := id })
+  | .defScript acts => ({ st with scripts := st.scripts ++ [acts] }, { ret := st.scripts.length })
+  | .lookup sid => let (s, id) := lookup st sid; (s, { ret := id })
   | .cancel id => let (s, b) := cancel st id; (s, { ret := if b then 1 else 0 })
   | .running id => (st, { ret := if (find st.reqs id).isSome then 1 else 0 })
   | .recv d => let (s, e) := onRecv st d; (s, { events := e })
